@@ -46,6 +46,11 @@ func profiles() map[string]Profile {
 	m["C08"] = p
 
 	p = base
+	p.Name = "C16" // measure, mutate, measure again: counts and block enumerations across versions
+	p.Len, p.Blocks, p.Set, p.Del, p.Totals, p.Snap, p.SnapClose = 14, 12, 30, 22, 4, 3, 2
+	m["C16"] = p
+
+	p = base
 	p.Name = "C13any" // aggregates and search order also under lower-priority overwrites
 	p.Shape, p.Set, p.Del = 10, 40, 12
 	m["C13any"] = p
@@ -131,6 +136,12 @@ func profiles() map[string]Profile {
 	p.Flush, p.Image, p.Visit, p.Copy, p.Reopen, p.MemOnly, p.Revert, p.Snap, p.SnapClose = 10, 5, 6, 2, 6, 10, 3, 2, 1
 	p.Cfg = func(r *rand.Rand) int { return r.Intn(256) }
 	m["C17"] = p
+
+	p.Name = "C17c" // values chunked in memory as well (Val = first chunk, rest in Transient)
+	p.NoGet = true  // Get hands out Item.Val, which is only the first chunk here
+	p.Totals, p.Shape, p.BigVals = 8, 3, true
+	p.Cfg = func(r *rand.Rand) int { return 256 | (r.Intn(256) &^ (4 | 8 | 16)) }
+	m["C17c"] = p
 	return m
 }
 
